@@ -146,6 +146,34 @@ func TestVerif_C15(t *testing.T) {
 			}
 		}
 	}
+	// (c) histories: a topology change makes one process ask for different ranges one after the
+	// other, so the answer for a range must not depend on what was asked before. All ranges over
+	// a set of boundaries whose decimal digits run into each other are asked in one process; every
+	// shard uses another order (rotations of the ascending and of the descending order), so each
+	// pair of ranges is asked in both orders somewhere.
+	bounds := []int{0, 1, 2, 3, 11, 12, 23, 34, 112, 123, 234, 341, 1123, 1234, 2341, 5460, 5461, 10922, 10923, 11234, 12341, 16382, 16383}
+	var dom [][2]int
+	for i, l := range bounds {
+		for _, r := range bounds[i:] {
+			dom = append(dom, [2]int{l, r})
+		}
+	}
+	si, sn = ev.ShardInfo()
+	rot := (si / 2) * len(dom) / ((sn + 1) / 2)
+	var hn int64
+	for pass := 0; pass < 2; pass++ {
+		for k := range dom {
+			j := (k + rot) % len(dom)
+			if si%2 == 1 {
+				j = len(dom) - 1 - j
+			}
+			c15Range(dom[j][0], dom[j][1])
+			hn++
+		}
+	}
+	ev.Bound("history_ranges", len(dom))
+	ev.Count("range_queries_in_one_process_history", hn)
+	nr += hn
 	ev.Eval(nr)
 	ev.StatesAdd(nr)
 	ev.Trans(nr)
